@@ -77,6 +77,7 @@ def decode(v):
 
 
 DEFAULTS = {"int": 0, "nat": 0, "bool": False, "str": "", "real": 0.0, "none": None}
+_OPQ = [0]
 
 
 class Builder:
@@ -111,7 +112,12 @@ class Builder:
             return NS()
         if typ.startswith("obj:"):
             c = self.cls(typ[4:])
-            o = c.__new__(c)
+            if c.__name__ in self.job.get("construct", []):
+                o = c()            # classes whose no-argument constructor is part of the object's meaning (Error)
+            else:
+                o = c.__new__(c)
+            if isinstance(getattr(c, "logger", None), property):
+                o.__dict__["_logger"] = NULL_LOGGER
             try:
                 if not isinstance(getattr(c, "logger", None), property):
                     o.logger = NULL_LOGGER
@@ -121,7 +127,9 @@ class Builder:
             if depth < 3:
                 for k in c.__mro__:
                     for attr, t in self.job.get("class_fields", {}).get(k.__name__, {}).items():
-                        if str(t).startswith("obj") and attr not in o.__dict__:
+                        if attr in o.__dict__ and not (c.__name__ in self.job.get("construct", []) and f"{name}.{attr}" in values):
+                            continue
+                        if str(t).startswith("obj") or c.__name__ in self.job.get("construct", []) or attr.startswith("g_"):
                             try:
                                 self.setattr_raw(o, attr, self.make(t, f"{name}.{attr}", values, depth + 1))
                             except Exception:
@@ -129,6 +137,12 @@ class Builder:
             return o
         if typ.startswith("dict["):
             return dict(decode(values.get(name, {})) or {})
+        if typ == "exception":
+            _OPQ[0] += 1
+            return Exception(f"boom{_OPQ[0]}")
+        if typ == "opaque" and name not in values:
+            _OPQ[0] += 1
+            return Opaque(1000 + _OPQ[0])
         # optint, val, ... : whatever the model says, None by default
         return decode(values.get(name))
 
